@@ -744,6 +744,19 @@ func buildRevoChain(cc *chainCase) []*Issued {
 	return out
 }
 
+// recordingFetcher: a fetcher in front of the real HTTPFetcher that notes which URLs it was asked for
+type recordingFetcher struct {
+	inner corecrl.Fetcher
+	ft    *scriptedFetcher
+}
+
+func (f *recordingFetcher) Fetch(ctx context.Context, u string) (*corecrl.Bundle, error) {
+	f.ft.mu.Lock()
+	f.ft.log = append(f.ft.log, u)
+	f.ft.mu.Unlock()
+	return f.inner.Fetch(ctx, u)
+}
+
 type crlOverHTTP struct {
 	base  []byte
 	delta []byte
@@ -883,7 +896,8 @@ func runChainCase(r *Runner, cc chainCase, idx int) {
 				if herr != nil {
 					panic(herr)
 				}
-				fetcher = hf
+				// what the validator asks of its fetcher is recorded as for the scripted one
+				fetcher = &recordingFetcher{inner: hf, ft: ft}
 			}
 			v, e := revocation.NewWithOptions(revocation.Options{OCSPHTTPClient: client, CRLFetcher: fetcher, CertChainPurpose: p})
 			if e != nil {
@@ -954,9 +968,44 @@ func runChainCase(r *Runner, cc chainCase, idx int) {
 	}
 	ft.mu.Unlock()
 	impl["traces"] = traces
-	if cc.cancel == "before" || cc.cancel == "during" || cc.realFetcher {
+	if cc.realFetcher {
+		// the CRL downloads went over the transport: keep only the OCSP entries of its log (the fetches themselves were recorded)
+		for i := range traces {
+			var keep []any
+			for _, e := range traces[i] {
+				pair := e.([]string)
+				isCRL := false
+				for _, u := range cc.levels[i].crlURLs {
+					if pair[0] == "ocsp" && pair[1] == u {
+						isCRL = true
+					}
+				}
+				if !isCRL {
+					keep = append(keep, e)
+				}
+			}
+			if keep == nil {
+				keep = []any{}
+			}
+			traces[i] = keep
+		}
+		// order between the OCSP and the CRL entries of one certificate: OCSP first (the log of the transport and the log of the
+		// fetcher are separate); re-sort accordingly
+		for i := range traces {
+			var o, k []any
+			for _, e := range traces[i] {
+				if e.([]string)[0] == "ocsp" {
+					o = append(o, e)
+				} else {
+					k = append(k, e)
+				}
+			}
+			traces[i] = append(append([]any{}, o...), k...)
+		}
+		impl["traces"] = traces
+	}
+	if cc.cancel == "before" || cc.cancel == "during" {
 		// which requests were still started depends on when the cancellation lands; not compared
-		// (real fetcher: the CRL downloads are in the transport's log, not in the scripted fetcher's)
 		delete(impl, "traces")
 	}
 	c.Replay.(map[string]any)["cancel"] = cc.cancel
